@@ -214,6 +214,9 @@ example : rule cfgDefault 4 [.fetch 5, .fetched 5 f5, .contents 5 125 true, .aut
 /-- with the certificate check switched off (mode bit 0) the same unauthenticated write is accepted: the theorems are
 really parametric in the mode -/
 example : accepted { cfgDefault with vc := false } 4 [.fetch 5, .fetched 5 f5, .contents 5 125 true, .wrote 5 125 225] = true := by decide
-example : cfgOfMode 0 2 4 = some cfgDefault := by decide
+/-- the hypothesis of `default_mode_writes_good` is met by the default mode of the current tree -/
+example : cfgOfMode Gen.CatchupMode.defaultMode 2 4 = some cfgDefault := by decide
+/-- the hypothesis of `writes_ordered_from` -/
+example : WF (init 7) := by simp [WF, init]
 
 end Props.C30
